@@ -466,6 +466,31 @@ class Interp:
                     return r
         return self.top_of_type(st, ty, 'mv')
 
+    def load_table(self, st, p, i, key):
+        """element of a small constant table selected by an index with a known small range (a digit table indexed by a
+        nibble): one state per index value, each with the constant element"""
+        o = st.objs.get(p.obj)
+        if o is None or o.kind != 'global' or not o.info.get('g') or not o.info['g'].get('const'):
+            return None
+        init = o.info['g'].get('init')
+        if not (isinstance(init, list) and init and all(isinstance(x, int) for x in init)) or len(init) > 64:
+            return None
+        esz = o.info['g']['ty']['size'] // len(init)
+        if not esz or i.ty.get('size') != esz:
+            return None
+        if not (st.cons.entails_le(0, p.off) and st.cons.entails_le(p.off, (len(init) - 1) * esz)):
+            return None
+        self.check_access(st, p, esz, i, 'load')
+        out = []
+        for k, v in enumerate(init):
+            s2 = st.fork()
+            s2.cons.add_eq(p.off, k * esz)
+            if self.infeasible(s2, p.off, Lin(k * esz)):
+                continue
+            s2.env[key] = mk_const(i.ty['bits'], v)
+            out.append(s2)
+        return out or None
+
     def const_global_load(self, st, o, off, ty):
         g = o.info['g']
         init = g.get('init')
@@ -1431,6 +1456,12 @@ class Interp:
                 o = st.objs.get(p.obj)
                 if o is not None and o.info.get('cstr_len') is not None:
                     return self.load_cstr(st, p, o, i, key)
+            if getattr(self, 'split_tables', False) and isinstance(p, PtrVal) and p.obj is not None and \
+                    not p.off.is_const() and i.ty.get('k') == 'int':
+                # (opt-in: a CRC routine indexing its table in a loop would fork 16 ways per step)
+                r = self.load_table(st, p, i, key)
+                if r is not None:
+                    return r
             env[key] = self.load(st, p, i.ty, i)
             return [st]
         if op == 'store':
